@@ -278,10 +278,12 @@ struct decoder_greedy<E, T, true>
         v.resize(0);
         while(true)
         {
+            const uint8_t* const element_begin = pos;
             v.push_back(T());
             if (!decoder<E, T>::decode(v.back(), pos, end))
             {
                 v.pop_back();
+                pos = element_begin;
                 return true;
             }
         }
